@@ -1,6 +1,7 @@
 package checks
 
 import (
+	"html/template"
 	"sort"
 	"strings"
 )
@@ -61,6 +62,25 @@ func catAlt(canary string) map[string]any {
 		"m":     map[string]any{"k1": "w1", "k9": "w9"},
 		"user":  map[string]any{"name": "Bob", "tags": []string{"r", "s"}},
 		"color": "green", "html": "<u>alt</u>", "st": catItem{Name: "A", N: 1}, "url": "/alt",
+	})(canary)
+}
+
+// catRetyped: the same values as the normal data set in other Go types (what a JSON decoder, a
+// typed struct or a database row would deliver): compiled expressions and cached paths must not
+// remember the types of an earlier render.
+type catUser struct {
+	Name string   `json:"name"`
+	Tags []string `json:"tags"`
+}
+
+func catRetyped(canary string) map[string]any {
+	return catData(map[string]any{
+		"n": float64(3), "items": []string{"a", "b", "c"}, "rows": []any{[]any{1.0, 2.0}, []any{3.0}},
+		"objs":  []any{map[string]any{"name": "x", "on": true}, map[string]any{"name": "y", "on": false}},
+		"m":     map[string]string{"k1": "v1", "k2": "v2", "k3": "v3", "k4": "v4", "k5": "v5"},
+		"user":  catUser{Name: "Ann", Tags: []string{"p", "q"}},
+		"st":    map[string]any{"name": "S", "n": 7.0, "Name": "S"},
+		"color": template.HTML("red"), "show": 1, "hide": 0,
 	})(canary)
 }
 
